@@ -3,31 +3,45 @@
 //@safetyprops C10 C14
 //@desc GetBounds(Path64) and TranslatePath(Path64), unbounded in the path length (loop contracts). GetBounds: every vertex lies inside the returned rectangle (arbitrary ghost index), every side is attained by some vertex (ghost witnesses updated next to the real assignments), an empty path gives the inverted (max, max, lowest, lowest) rectangle. TranslatePath: the result has the same length and element k is (path[k].x + dx, path[k].y + dy) for an arbitrary k, no overflow for |coordinates|, |dx|, |dy| <= 2^62.
 #include "vf.h"
-typedef struct { int64_t x, y; } Point64;
+#ifdef DBL
+typedef double CT;            /* the PathD instantiation of GetBounds (ScalePaths' range check and every PathsD bounding box use it) */
+#define CT_MAX 1.7976931348623157e308
+#define CT_LOWEST (-1.7976931348623157e308)
+#define CT_MIN 2.2250738585072014e-308
+#define CT_OK(v) (!__CPROVER_isnand(v))
+#else
+typedef int64_t CT;
+#define CT_MAX INT64_MAX
+#define CT_LOWEST INT64_MIN
+#define CT_MIN INT64_MIN
+#define CT_OK(v) 1
+#endif
+typedef struct { CT x, y; } Point64;
 typedef struct { Point64* data; size_t size; } Path64;
-typedef struct { int64_t left, top, right, bottom; } Rect64;
+typedef struct { CT left, top, right, bottom; } Rect64;
 size_t g_k;
 size_t w_xmin, w_xmax, w_ymin, w_ymax;
-#define VF_T_MAX INT64_MAX
-#define VF_T_LOWEST INT64_MIN
-typedef int64_t T; typedef Rect64 RectT; typedef Path64 PathT;
+#define VF_T_MAX CT_MAX
+#define VF_T_LOWEST CT_LOWEST
+#define VF_T_MIN CT_MIN
+typedef CT T; typedef Rect64 RectT; typedef Path64 PathT;
 //@extract file=CPP/Clipper2Lib/include/clipper2/clipper.core.h func=GetBounds sig="const Path<T>& path" byval=path rangefor=1 vec=path
 //@sub /return RectT\(([^;]*)\);/return (RectT){\1};/
 //@sub /\b([xy]m(?:in|ax)) = \(path\.data\[vf_i_p\]\)\.(\w+);/{ \1 = (path.data[vf_i_p]).\2; w_\1 = vf_i_p; }/ min=4
-__CPROVER_requires(path.size < ((size_t)1 << 40) && __CPROVER_is_fresh(path.data, path.size * sizeof(Point64)) && g_k < path.size)
-__CPROVER_ensures(path.size == 0 ==> (__CPROVER_return_value.left == INT64_MAX && __CPROVER_return_value.top == INT64_MAX && __CPROVER_return_value.right == INT64_MIN && __CPROVER_return_value.bottom == INT64_MIN))
+__CPROVER_requires(path.size < ((size_t)1 << 40) && __CPROVER_is_fresh(path.data, path.size * sizeof(Point64)) && g_k < path.size && CT_OK(path.data[g_k].x) && CT_OK(path.data[g_k].y))
+__CPROVER_ensures(path.size == 0 ==> (__CPROVER_return_value.left == CT_MAX && __CPROVER_return_value.top == CT_MAX && __CPROVER_return_value.right == CT_LOWEST && __CPROVER_return_value.bottom == CT_LOWEST))
 __CPROVER_ensures(path.size > 0 ==> (__CPROVER_return_value.left <= path.data[g_k].x && path.data[g_k].x <= __CPROVER_return_value.right && __CPROVER_return_value.top <= path.data[g_k].y && path.data[g_k].y <= __CPROVER_return_value.bottom))
 /* every side is attained (a side still at its initial extreme value is attained because of the clause above) */
 #define RV __CPROVER_return_value
-__CPROVER_ensures((RV.left == INT64_MAX || (w_xmin < path.size && RV.left == path.data[w_xmin].x)) && (RV.right == INT64_MIN || (w_xmax < path.size && RV.right == path.data[w_xmax].x)) &&
-   (RV.top == INT64_MAX || (w_ymin < path.size && RV.top == path.data[w_ymin].y)) && (RV.bottom == INT64_MIN || (w_ymax < path.size && RV.bottom == path.data[w_ymax].y)))
+__CPROVER_ensures((RV.left == CT_MAX || (w_xmin < path.size && RV.left == path.data[w_xmin].x)) && (RV.right == CT_LOWEST || (w_xmax < path.size && RV.right == path.data[w_xmax].x)) &&
+   (RV.top == CT_MAX || (w_ymin < path.size && RV.top == path.data[w_ymin].y)) && (RV.bottom == CT_LOWEST || (w_ymax < path.size && RV.bottom == path.data[w_ymax].y)))
 __CPROVER_assigns(w_xmin, w_xmax, w_ymin, w_ymax)
 //@loop 1
 __CPROVER_assigns(vf_i_p, xmin, xmax, ymin, ymax, w_xmin, w_xmax, w_ymin, w_ymax)
 __CPROVER_loop_invariant(vf_i_p <= path.size)
-__CPROVER_loop_invariant(vf_i_p == 0 ==> (xmin == INT64_MAX && ymin == INT64_MAX && xmax == INT64_MIN && ymax == INT64_MIN))
+__CPROVER_loop_invariant(vf_i_p == 0 ==> (xmin == CT_MAX && ymin == CT_MAX && xmax == CT_LOWEST && ymax == CT_LOWEST))
 __CPROVER_loop_invariant(g_k < vf_i_p ==> (xmin <= path.data[g_k].x && path.data[g_k].x <= xmax && ymin <= path.data[g_k].y && path.data[g_k].y <= ymax))
-__CPROVER_loop_invariant((xmin == INT64_MAX || (w_xmin < vf_i_p && xmin == path.data[w_xmin].x)) && (xmax == INT64_MIN || (w_xmax < vf_i_p && xmax == path.data[w_xmax].x)) && (ymin == INT64_MAX || (w_ymin < vf_i_p && ymin == path.data[w_ymin].y)) && (ymax == INT64_MIN || (w_ymax < vf_i_p && ymax == path.data[w_ymax].y)))
+__CPROVER_loop_invariant((xmin == CT_MAX || (w_xmin < vf_i_p && xmin == path.data[w_xmin].x)) && (xmax == CT_LOWEST || (w_xmax < vf_i_p && xmax == path.data[w_xmax].x)) && (ymin == CT_MAX || (w_ymin < vf_i_p && ymin == path.data[w_ymin].y)) && (ymax == CT_LOWEST || (w_ymax < vf_i_p && ymax == path.data[w_ymax].y)))
 __CPROVER_decreases(path.size - vf_i_p)
 //@end
 /* TranslatePath: result only observed (ghost observation of element g_k) */
@@ -55,5 +69,6 @@ __CPROVER_decreases(path.size - vf_t)
 void h_TranslatePath(void) { Path64 p; int64_t dx, dy; TranslatePath(p, dx, dy); VF_CANARY(); }
 void h_GetBounds(void) { Path64 p; GetBounds(p); VF_CANARY(); }
 //@run name=GetBounds entry=h_GetBounds enforce=GetBounds loops=1 flags=SAFETY solver=cadical timeout=300
+//@run name=GetBounds.double entry=h_GetBounds enforce=GetBounds loops=1 defs=DBL flags="--bounds-check --pointer-check --unsigned-overflow-check" solver=cadical timeout=300
 //@run name=TranslatePath entry=h_TranslatePath enforce=TranslatePath loops=1 flags="--bounds-check --pointer-check --unsigned-overflow-check --conversion-check" timeout=300
 //@assume A5: TranslatePath: the std::transform/back_inserter/lambda idiom is rewritten into the index loop it denotes (rule logged); the result vector is observed, not stored (ghost observation of one arbitrary element). Signed overflow of pt.x + dx is not checked for all elements (only the observed one is range-constrained).
